@@ -1,7 +1,8 @@
 (* C03 — partial evaluation commutes with evaluation.  Property theorems only.
    [tiny] is the SDK's coefficient-dropping test; exactness is stated for tests that drop only
    exact zeros (see C02 for the residual form of the underlying merge). *)
-Require Import Ommx.Num Ommx.Poly Ommx.Msg Ommx.Eval Ommx.Arith Ommx.PEval Ommx.PEvalProofs.
+Require Import Ommx.Num Ommx.Poly Ommx.Msg Ommx.Eval Ommx.Arith Ommx.PEval Ommx.PEvalProofs
+        Ommx.Inst Ommx.PEvalInst Ommx.PEvalInstProofs Ommx.Subst Ommx.SubstProofs Ommx.PEvalInstState.
 
 (* the partially evaluated function denotes the original at every valuation that agrees with
    the fixed part: parts that do not involve fixed variables keep their meaning *)
@@ -32,6 +33,66 @@ Theorem C03_lin_ids_partial : forall s l l' u, lin_pe l s = (l', u) ->
   (forall i, In i u -> In i (map fst (l_terms l)) /\ fixed s i).
 Proof. exact (lin_pe_ids tiny_eps). Qed.
 Print Assumptions C03_lin_ids_partial.
+
+
+(* instance level: fixing s1 in an instance (objective, active and removed constraints, dependency
+   functions) and evaluating the result at s2 gives the same objective, the same per-constraint
+   records (id, equality kind, value, metadata, removal reason; in the same order) and the same two
+   feasibility flags as evaluating the original instance at s1 u s2 (the values recorded for the
+   decision variables: C03_instance_state below) *)
+Theorem C03_instance : forall tiny, tiny_exact tiny -> forall s1 s2, sdisjoint s1 s2 ->
+  forall I J u m1 m2, inst_pe tiny I s1 = Some (J, u) ->
+  inst_eval J s2 = Some m1 -> inst_eval I (s1 ++ s2) = Some m2 ->
+  so_objective m1 = so_objective m2 /\
+  Forall2 same_evaluated (so_evaluated m1) (so_evaluated m2) /\
+  so_feasible_relaxed m1 = so_feasible_relaxed m2 /\ so_feasible m1 = so_feasible m2.
+Proof. exact inst_pe_commutes. Qed.
+Print Assumptions C03_instance.
+
+(* ... and the same value for every variable id: the fixed variables through their substituted
+   values, the dependent variables through the partially evaluated dependency functions (whatever
+   order either dependency pass takes), the remaining ones from s2 or by the nearest-to-zero rule.
+   Hypotheses: the fixed ids are defined variables without an earlier substituted value; dependent
+   variables are distinct and have no value in the state. *)
+Theorem C03_instance_state : forall tiny, tiny_exact tiny -> forall s1 s2 I,
+  (forall i x, sget s1 i = Some x ->
+     (exists v, In v (i_dvs I) /\ dv_id v = i) /\ (forall v, In v (i_dvs I) -> dv_id v = i -> dv_subst v = None)) ->
+  forall J u m1 m2, NoDup (dkeys (i_deps I)) ->
+  (forall d, In d (dkeys (i_deps I)) -> sget (insert_subst (i_dvs I) (s1 ++ s2)) d = None) ->
+  inst_pe tiny I s1 = Some (J, u) ->
+  inst_eval J s2 = Some m1 -> inst_eval I (s1 ++ s2) = Some m2 ->
+  forall i, sget (so_state m1) i = sget (so_state m2) i.
+Proof. exact inst_pe_state. Qed.
+Print Assumptions C03_instance_state.
+
+
+(* non-vacuity of the instance-level statements: x3 := x1 + x2 is a dependent variable,
+   objective x1*x2 + x2, constraint x1 + x2 - 4 <= 0; fixing x1 = 2 and evaluating at x2 = 3 *)
+Definition ex_dv (i : N) : dvar :=
+  {| dv_id := i; dv_kind := KIND_CONTINUOUS; dv_bound := None; dv_subst := None; dv_meta := [] |}.
+Definition ex_inst : instance :=
+  {| i_sense := SENSE_MIN;
+     i_obj := Some (FPoly [([1; 2]%N, 1); ([2]%N, 1)]);
+     i_dvs := [ex_dv 1; ex_dv 2; ex_dv 3];
+     i_cs := [{| c_id := 7; c_eq := LE_ZERO;
+                 c_fn := Some (FLin {| l_terms := [(1%N, 1); (2%N, 1)]; l_const := qz (-4) |}); c_meta := [] |}];
+     i_rs := []; i_deps := [(3%N, FLin {| l_terms := [(1%N, 1); (2%N, 1)]; l_const := 0 |})];
+     i_params := None; i_hints := Tree.L []; i_desc := Tree.L [] |}.
+Example C03_instance_nonvacuous :
+  exists J u m1 m2, inst_pe tiny_0 ex_inst [(1%N, qz 2)] = Some (J, u) /\
+    inst_eval J [(2%N, qz 3)] = Some m1 /\ inst_eval ex_inst ([(1%N, qz 2)] ++ [(2%N, qz 3)]) = Some m2 /\
+    so_objective m1 = qz 9 /\ so_objective m2 = qz 9 /\ sget (so_state m1) 3 = Some (qz 5) /\
+    sget (so_state m1) 1 = Some (qz 2) /\ so_feasible m1 = false /\
+    NoDup (dkeys (i_deps ex_inst)) /\
+    (forall d, In d (dkeys (i_deps ex_inst)) -> sget (insert_subst (i_dvs ex_inst) ([(1%N, qz 2)] ++ [(2%N, qz 3)])) d = None).
+Proof.
+  eexists; eexists; eexists; eexists.
+  split; [vm_compute; reflexivity|]. split; [vm_compute; reflexivity|]. split; [vm_compute; reflexivity|].
+  split; [vm_compute; reflexivity|]. split; [vm_compute; reflexivity|]. split; [vm_compute; reflexivity|].
+  split; [vm_compute; reflexivity|]. split; [vm_compute; reflexivity|].
+  split; [repeat constructor; intros []|].
+  intros d [<-|[]]. vm_compute. reflexivity.
+Qed.
 
 Example C03_nonvacuous :
   let q := FQuad {| q_rows := [1; 2]%N; q_cols := [2; 2]%N; q_vals := [qz 3; 1]; q_lin := None |} in
